@@ -30,7 +30,7 @@ HEADER = '''from collections import defaultdict
 from typing import Any, Callable, DefaultDict, Dict, Iterator, Generator, List, NewType, Optional, Set, Tuple, Type, Union
 from vf.fixtures.hier import A, B, C, D, M, Outer, MyList, MyDict, NT, func, lam, make_gen, MySet, MyTuple
 from vf.fixtures.hier import X1, X2, X3, X4, X5, X6, R1, R2, E1, E2, E3, E4, E5, E6
-from vf.fixtures.hier import TimeoutError, Warning, KeyError_  # noqa: A004 - user classes named like builtins
+from vf.fixtures.hier import TimeoutError, Warning, KeyError_, SKey, Registry  # noqa: A004 - user classes named like builtins
 from vf.fixtures.helpers import pick
 from vf.fixtures import PkgLevel
 
@@ -48,6 +48,11 @@ class Own:
 
 '''
 
+VALUE_GROUPS = [
+    ["{}", "defaultdict(int, {'a': 1})"], ["[]", "[1]"], ["set()", "{1}"], ["None", "[]"], ["{}", "{'a': 1}"], ["()", "(1,)"],
+    ["defaultdict(int)", "{'a': 1}"], ["[]", "None", "[A()]"], ["{1: 2}", "{}", "defaultdict(int, {1: 2})"], ["[A, B]", "[int]"],
+    ["Registry", "A"], ["{SKey('a'): 1}", "{'b': 2}"], ["[[]]", "[[1]]", "[]"], ["(1, 'a')", "()"],
+]
 POOL = [e for e in gv.BASIS if "make_gen" not in e and "lambda" not in e]
 
 
@@ -191,7 +196,10 @@ class Mod:
                 p.ann, p.vals = s["ann"], list(s["vals"])
             else:
                 n = rng.choice([1, 1, 2, 3]) if not self.opts.get("wide") else rng.choice([1, 2, 3, 6, 7, 8])
-                p.vals = [prefix_keys(e, f"f{f.idx}") if unique else e for e in rng.sample(self.value_pool(), n)]
+                if not self.opts.get("pool") and rng.random() < 0.2:
+                    p.vals = list(rng.choice(VALUE_GROUPS))
+                else:
+                    p.vals = [prefix_keys(e, f"f{f.idx}") if unique else e for e in rng.sample(self.value_pool(), n)]
             if p.default == "DEFAULT":
                 if rng.random() < 0.4 and (p.ann is None or p.ann.startswith("Optional") or rng.random() < 0.5):
                     p.default = "None"
